@@ -60,6 +60,7 @@ struct Gen<'a> {
     events: Vec<Event>,
     calls: usize,
     max_calls: usize,
+    adversarial: bool,
     /// paths of honest starts already verified through the client (their vouchers may be cached)
     primed_paths: Vec<Vec<usize>>,
 }
@@ -231,14 +232,66 @@ impl<'a> Gen<'a> {
     }
 
     fn push_call(&mut self, subject: Subject, start: usize, lies: Vec<Lie>, note: &str) {
+        // 1-6 calls are planned; a campaign may overshoot, never beyond 8
+        if self.calls >= 8 {
+            return;
+        }
         if self.calls > 0 && self.rng.chance(0.12) {
             self.events.push(Event::ResetCache);
         }
         if subject == Subject::Client && lies.is_empty() && self.ws.built[start].honest {
             self.primed_paths.push(self.path(start));
         }
-        self.events.push(Event::Call { subject, start, lies, note: note.to_string() });
+        // "a different valid certificate for the requested hash" is a first-class answer at every
+        // fetch site (first-loop fetch of the previous certificate, objects handed to the
+        // cache-enabled loop, downloads after a cache hit), on honest and forged paths alike and
+        // in whatever state earlier calls left the cache
+        let mut lies = lies;
+        let mut note = note.to_string();
+        if self.adversarial && lies.len() < 3 && self.rng.chance(0.2) {
+            let l = self.swap_lie(start, None);
+            note.push_str(&format!(" +{}", l.kind));
+            lies.push(l);
+        }
+        self.events.push(Event::Call { subject, start, lies, note });
         self.calls += 1;
+    }
+
+    /// A valid certificate that is NOT the one a request on the path of `start` asks for.
+    /// `at`: position on the path (`None` = random; `path.len()` = the request for the previous
+    /// hash of the last certificate of the path, i.e. a dangling link).
+    fn swap_lie(&mut self, start: usize, at: Option<usize>) -> Lie {
+        let path = self.path(start);
+        let last = *path.last().unwrap();
+        let dangling = !self.ws.built[last].cert.is_genesis();
+        let positions = path.len() + usize::from(dangling);
+        let pos = at.unwrap_or_else(|| self.rng.index(positions)).min(positions - 1);
+        let (on, expected_epoch) = if pos < path.len() {
+            (LieOn::Hash(path[pos]), self.epoch_of(path[pos]))
+        } else {
+            (LieOn::PrevOf(last), self.epoch_of(last).saturating_sub(self.rng.below(2)))
+        };
+        // what is served instead: an honest certificate of the expected epoch (first / any), of a
+        // neighbouring epoch, any honest one, or any other self-consistent certificate
+        let honest = self.honest_ids();
+        let same: Vec<usize> = honest.iter().copied().filter(|h| self.epoch_of(*h) == expected_epoch).collect();
+        let near: Vec<usize> = honest
+            .iter()
+            .copied()
+            .filter(|h| self.epoch_of(*h) + 1 == expected_epoch || self.epoch_of(*h) == expected_epoch + 1)
+            .collect();
+        let consistent: Vec<usize> = (0..self.ws.built.len())
+            .filter(|i| self.ws.built[*i].cert.hash == self.ws.built[*i].content_hash)
+            .collect();
+        let (serve, flavour) = match self.rng.weighted(&[30, 25, 15, 15, 15]) {
+            0 if !same.is_empty() => (same[0], "same_epoch_first"),
+            1 if !same.is_empty() => (*self.rng.pick(&same), "same_epoch"),
+            2 if !near.is_empty() => (*self.rng.pick(&near), "neighbour_epoch"),
+            3 => (*self.rng.pick(&consistent), "any_consistent"),
+            _ => (*self.rng.pick(&honest), "any_honest"),
+        };
+        let site = if pos == 0 { "start" } else if pos < path.len() { "link" } else { "dangling" };
+        Lie { on, occ: None, answer: Answer::Serve(serve), kind: format!("swap_{site}.{flavour}") }
     }
 
     // ----------------------------------------------------------------------------------------
@@ -644,6 +697,99 @@ impl<'a> Gen<'a> {
         }
     }
 
+    /// An internally consistent adversarial chain: 2-4 certificates over consecutive epochs, each
+    /// with a valid multi-signature of an adversary signer set, correct hashes, and next-AVK /
+    /// next-parameter hand-overs that are consistent among themselves. Returned bottom first.
+    fn consistent_adversarial_chain(&mut self, bottom_prev: HashRef, bottom_epoch: u64, n: usize, tag: &str) -> Vec<usize> {
+        let sets = self.adv_sets.clone();
+        let mut out = Vec::new();
+        let mut prev = bottom_prev;
+        let mut epoch = bottom_epoch;
+        let mut set = *self.rng.pick(&sets);
+        for i in 0..n {
+            // the set that signs in the next epoch (announced by this certificate)
+            let next_set = *self.rng.pick(&sets);
+            self.seq += 1;
+            let id = self.add_item(
+                Recipe::Signed { epoch, set, next_set, prev: prev.clone(), digest: format!("{tag}-{i}"), seq: self.seq },
+                false,
+                "advchain.adversary_signed",
+            );
+            out.push(id);
+            prev = HashRef::Content(id);
+            // mostly one certificate per epoch; a second one in the same epoch keeps the signer set
+            if self.rng.chance(0.8) {
+                epoch += 1;
+                set = next_set;
+            }
+        }
+        out
+    }
+
+    /// Campaign on a consistent adversarial chain that hangs from nothing, from a dangling hash,
+    /// from an honest hash it is not entitled to, or from the adversary's own genesis certificate:
+    /// a first call is rejected somewhere below (but may leave cache vouchers for the adversarial
+    /// links verified on the way), then further calls answer requests on that path with other
+    /// valid certificates.
+    fn move_adversarial_chain_campaign(&mut self) {
+        let bottom_epoch = self.rng.range(self.g0 + 1, self.last_epoch.max(self.g0 + 1));
+        let (bottom_prev, hang) = match self.rng.weighted(&[40, 10, 35, 15]) {
+            0 => (HashRef::Garbage(self.rng.next_u64()), "dangling"),
+            1 => (HashRef::Empty, "nothing"),
+            2 => {
+                // an honest certificate of the previous / same / some epoch: not entitled
+                let honest = self.honest_ids();
+                let near: Vec<usize> = honest
+                    .iter()
+                    .copied()
+                    .filter(|h| self.epoch_of(*h) + 1 == bottom_epoch || self.epoch_of(*h) == bottom_epoch)
+                    .collect();
+                let h = if !near.is_empty() && self.rng.chance(0.8) { *self.rng.pick(&near) } else { *self.rng.pick(&honest) };
+                (HashRef::Field(h), "honest_hash_not_entitled")
+            }
+            _ => {
+                let a = self.adv_set();
+                let g = self.add_item(
+                    Recipe::Genesis { epoch: bottom_epoch.saturating_sub(1), next_set: a, adv_key: true },
+                    false,
+                    "advchain.own_genesis",
+                );
+                (HashRef::Content(g), "own_genesis")
+            }
+        };
+        let n = self.rng.range(2, 4) as usize;
+        let chain = self.consistent_adversarial_chain(bottom_prev, bottom_epoch, n, "advchain");
+        let top = *chain.last().unwrap();
+        if self.rng.chance(0.3) {
+            // honest links may be cached too
+            let start = self.pick_honest_start();
+            self.push_call(Subject::Client, start, vec![], "honest (before adversarial chain)");
+        }
+        // first call: plain, expected to be rejected below the adversarial links
+        let first = if self.rng.chance(0.75) { top } else { *self.rng.pick(&chain) };
+        self.push_call(Subject::Client, first, vec![], &format!("advchain[{n}] from {hang}: first call"));
+        let more = self.rng.range(1, 3);
+        for _ in 0..more {
+            let start = if self.rng.chance(0.65) { top } else { *self.rng.pick(&chain) };
+            let path_len = self.path(start).len();
+            let mut lies = Vec::new();
+            let mut note = format!("advchain[{n}] from {hang}: swap");
+            for _ in 0..self.rng.range(1, 2) {
+                // anywhere on the path, with a preference for its lower end and the dangling link
+                let at = if self.rng.chance(0.6) {
+                    Some(path_len.saturating_sub(self.rng.index(2)))
+                } else {
+                    None
+                };
+                let l = self.swap_lie(start, at);
+                note.push_str(&format!(" {}", l.kind));
+                lies.push(l);
+            }
+            let subject = if self.rng.chance(0.9) { Subject::Client } else { Subject::Common };
+            self.push_call(subject, start, lies, &note);
+        }
+    }
+
     /// Prime the cache with an honest call, then answer one request of a second call with ANOTHER
     /// valid honest certificate (one from higher up sends a verifier that follows cached links
     /// round in circles, one from lower down makes it skip part of the chain).
@@ -774,6 +920,7 @@ pub fn generate<'r>(chain_rng: &'r mut Rng, rng: &'r mut Rng) -> (Scenario, Work
         events: vec![],
         calls: 0,
         max_calls,
+        adversarial,
         primed_paths: vec![],
     };
     let shape = g.honest_chain();
@@ -799,7 +946,7 @@ pub fn generate<'r>(chain_rng: &'r mut Rng, rng: &'r mut Rng) -> (Scenario, Work
             g.move_honest();
             continue;
         }
-        match g.rng.weighted(&[22, 16, 20, 10, 20, 6, 6, 5]) {
+        match g.rng.weighted(&[20, 14, 18, 9, 16, 5, 5, 4, 14]) {
             0 => g.move_honest(),
             1 => g.move_point_lies(),
             2 => g.move_cascade_fork(None),
@@ -811,7 +958,8 @@ pub fn generate<'r>(chain_rng: &'r mut Rng, rng: &'r mut Rng) -> (Scenario, Work
             4 => g.move_graft(),
             5 => g.move_adversarial_genesis(),
             6 => g.move_rule_switch(),
-            _ => g.move_cached_link_swap(),
+            7 => g.move_cached_link_swap(),
+            _ => g.move_adversarial_chain_campaign(),
         }
     }
     let sc = Scenario {
